@@ -43,6 +43,10 @@ def cases(tier, seed):
                         continue
                     base = f"{m}x{n}/r={r}/c={'-'.join(map(str, comp)) or '0'}/{kU}/row={row}"
                     out.append({"key": f"full/{base}", "entry": "classical_qsvd_full", "m": m, "n": n, "vals": vals, "kU": kU, "kV": kV, "row": row, "R": None})
+                    if kU == "hh" and row == 0 and r >= 1:
+                        for e in (-50, 40):  # whole-matrix scalings ~1e-15, 1e12
+                            out.append({"key": f"full/{base}/scale=2^{e}", "entry": "classical_qsvd_full", "m": m, "n": n, "vals": vals, "kU": kU, "kV": kV, "row": row, "R": None, "scale": e})
+                            out.append({"key": f"trunc/{base}/R=1/scale=2^{e}", "entry": "classical_qsvd", "m": m, "n": n, "vals": vals, "kU": kU, "kV": kV, "row": row, "R": 1, "scale": e})
                     for R in range(1, p + 1):
                         out.append({"key": f"trunc/{base}/R={R}", "entry": "classical_qsvd", "m": m, "n": n, "vals": vals, "kU": kU, "kV": kV, "row": row, "R": R})
     return out
@@ -54,6 +58,9 @@ def run_case(case, seed):
     p = min(m, n)
     fill = G.Fill(seed + 31 * case["row"], stream=hash_tag(f"{m}x{n}/{case['kU']}/{case['row']}"))
     A, Uq, Vq = SG.build(m, n, vals, case["kU"], case["kV"], fill, variant=len(vals) + int(sum(vals) * 4))
+    if case.get("scale"):
+        A = np.ldexp(A, case["scale"])
+        vals = [float(np.ldexp(v, case["scale"])) for v in vals]
     info = SG.cluster_info(vals, m, n)
     degenerate = SG.degenerate_within(vals, m, n, R)
     tags = {"entry": case["entry"], "degenerate": degenerate, "factors": case["kU"], **info}
@@ -64,7 +71,7 @@ def run_case(case, seed):
     else:
         ok, res = call(lib.qsvd.classical_qsvd, Aq, R)
     fails = []
-    nA = max(O.fro(A), 1.0)
+    nA = max(O.fro(A), 1.0) if not case.get("scale") else O.fro(A)
     bud = O.budget(nA, dims=4 * max(m, n))
     if not ok:
         fails.append(fail("raised", f"{type(res).__name__}: {res}", **tags))
